@@ -111,3 +111,139 @@ Check C15_write_preserves_history_invariant :
   forall (pre : list N) (s : stream) (h d : list N) (n : N) (s' : stream),
   StreamInv pre s h -> stream_write s d = (Done n, s') -> exists t : list N, StreamInv pre s' (h ++ t).
 Print Assumptions C15_write_preserves_history_invariant.
+
+From LZ Require Import Model.Stream Proofs.StreamSimAbs Proofs.StreamSimLoop Proofs.StreamSimData Proofs.StreamPrefix2Sync Proofs.StreamPrefix2Hist Proofs.StreamPrefix2Trace Proofs.StreamPrefix2 Proofs.StreamPrefix2Examples.
+
+(* if the complete stream decodes (one-shot Done with output out) then after EVERY single write call of any write trace over any prefix of the input (any piece sizes, re-offered data, empty writes; any sink) the bytes in the sink are a prefix of out   [proved as C15_sink_is_prefix_of_final_output in Proofs/StreamPrefix2.v] *)
+Theorem C15_sink_is_prefix_of_final_output :
+  forall (o : options) (k0 : snk) (bs : list N) (w : io),
+  StreamSimFull.is_byte_string bs ->
+  nlen bs < 4611686018427387904 ->
+  lzma_decompress big_fuel o {| i_src := cursor_of bs; i_snk := k0 |} = (Done tt, w) ->
+  forall (s' : stream) (rem' : list N),
+  wtrace (stream_new o k0) bs s' rem' -> prefix_of (snk_bytes (stream_sink s')) (snk_bytes (i_snk w)).
+Proof. exact (@C15_sink_is_prefix_of_final_output). Qed.
+Check C15_sink_is_prefix_of_final_output :
+  forall (o : options) (k0 : snk) (bs : list N) (w : io),
+  StreamSimFull.is_byte_string bs ->
+  nlen bs < 4611686018427387904 ->
+  lzma_decompress big_fuel o {| i_src := cursor_of bs; i_snk := k0 |} = (Done tt, w) ->
+  forall (s' : stream) (rem' : list N),
+  wtrace (stream_new o k0) bs s' rem' -> prefix_of (snk_bytes (stream_sink s')) (snk_bytes (i_snk w)).
+Print Assumptions C15_sink_is_prefix_of_final_output.
+
+(* with allow_incomplete, once header + 5 coder bytes are consumed finish succeeds and returns a prefix of out (all of out once the declared size is reached)   [proved as C15_finish_incomplete_returns_prefix_of_final_output in Proofs/StreamPrefix2.v] *)
+Theorem C15_finish_incomplete_returns_prefix_of_final_output :
+  forall (o : options) (k0 : snk) (bs : list N) (w : io),
+  StreamSimFull.is_byte_string bs ->
+  nlen bs < 4611686018427387904 ->
+  lzma_decompress big_fuel o {| i_src := cursor_of bs; i_snk := k0 |} = (Done tt, w) ->
+  o_allow_incomplete o = true ->
+  well_behaved k0 ->
+  forall (s' : stream) (rem' : list N),
+  wtrace (stream_new o k0) bs s' rem' ->
+  18 + nlen rem' <= nlen bs ->
+  exists (r0 : run_state) (k' : snk),
+    st_state s' = Some (SData r0) /\
+    stream_finish s' = (Done tt, k') /\
+    prefix_of (snk_bytes k') (snk_bytes (i_snk w)) /\
+    (StreamLatch.size_reached r0 -> snk_bytes k' = snk_bytes (i_snk w)).
+Proof. exact (@C15_finish_incomplete_returns_prefix_of_final_output). Qed.
+Check C15_finish_incomplete_returns_prefix_of_final_output :
+  forall (o : options) (k0 : snk) (bs : list N) (w : io),
+  StreamSimFull.is_byte_string bs ->
+  nlen bs < 4611686018427387904 ->
+  lzma_decompress big_fuel o {| i_src := cursor_of bs; i_snk := k0 |} = (Done tt, w) ->
+  o_allow_incomplete o = true ->
+  well_behaved k0 ->
+  forall (s' : stream) (rem' : list N),
+  wtrace (stream_new o k0) bs s' rem' ->
+  18 + nlen rem' <= nlen bs ->
+  exists (r0 : run_state) (k' : snk),
+    st_state s' = Some (SData r0) /\
+    stream_finish s' = (Done tt, k') /\
+    prefix_of (snk_bytes k') (snk_bytes (i_snk w)) /\
+    (StreamLatch.size_reached r0 -> snk_bytes k' = snk_bytes (i_snk w)).
+Print Assumptions C15_finish_incomplete_returns_prefix_of_final_output.
+
+(* after every write in the data state the decoder state, registers and window equal those of the one-shot loop after k symbol steps, and the unread input is staged ++ unconsumed with fewer than 20 staged bytes (or the size is reached / the end marker passed): never more than one symbol look-ahead behind   [proved as C15_keeps_up_with_input in Proofs/StreamPrefix2.v] *)
+Theorem C15_keeps_up_with_input :
+  forall (o : options) (k0 : snk) (bs : list N) (w : io),
+  StreamSimFull.is_byte_string bs ->
+  nlen bs < 4611686018427387904 ->
+  lzma_decompress big_fuel o {| i_src := cursor_of bs; i_snk := k0 |} = (Done tt, w) ->
+  forall (s' : stream) (rem' : list N) (r0 : run_state),
+  wtrace (stream_new o k0) bs s' rem' ->
+  st_state s' = Some (SData r0) ->
+  exists A0 : StreamSimSym.ast,
+    oneshot_start o k0 bs A0 /\
+    keeps_up A0 r0 (ds_pib (rs_dec r0) ++ st_tmp s') rem' /\
+    (forall (j : nat) (Aj : StreamSimSym.ast),
+     osteps A0 j Aj ->
+     20 + nlen rem' <= nlen (StreamSimSym.x_in Aj) -> win_len (StreamSimSym.x_win Aj) <= c_len (rs_out r0)).
+Proof. exact (@C15_keeps_up_with_input). Qed.
+Check C15_keeps_up_with_input :
+  forall (o : options) (k0 : snk) (bs : list N) (w : io),
+  StreamSimFull.is_byte_string bs ->
+  nlen bs < 4611686018427387904 ->
+  lzma_decompress big_fuel o {| i_src := cursor_of bs; i_snk := k0 |} = (Done tt, w) ->
+  forall (s' : stream) (rem' : list N) (r0 : run_state),
+  wtrace (stream_new o k0) bs s' rem' ->
+  st_state s' = Some (SData r0) ->
+  exists A0 : StreamSimSym.ast,
+    oneshot_start o k0 bs A0 /\
+    keeps_up A0 r0 (ds_pib (rs_dec r0) ++ st_tmp s') rem' /\
+    (forall (j : nat) (Aj : StreamSimSym.ast),
+     osteps A0 j Aj ->
+     20 + nlen rem' <= nlen (StreamSimSym.x_in Aj) -> win_len (StreamSimSym.x_win Aj) <= c_len (rs_out r0)).
+Print Assumptions C15_keeps_up_with_input.
+
+(* finish(allow_incomplete) returns at least the one-shot history up to 20 bytes before the end of the consumed input   [proved as C15_finish_incomplete_keeps_up in Proofs/StreamPrefix2.v] *)
+Theorem C15_finish_incomplete_keeps_up :
+  forall (o : options) (k0 : snk) (bs : list N) (w : io),
+  StreamSimFull.is_byte_string bs ->
+  nlen bs < 4611686018427387904 ->
+  lzma_decompress big_fuel o {| i_src := cursor_of bs; i_snk := k0 |} = (Done tt, w) ->
+  o_allow_incomplete o = true ->
+  well_behaved k0 ->
+  forall (s' : stream) (rem' : list N) (r0 : run_state),
+  wtrace (stream_new o k0) bs s' rem' ->
+  st_state s' = Some (SData r0) ->
+  exists A0 : StreamSimSym.ast,
+    oneshot_start o k0 bs A0 /\
+    (forall (j : nat) (Aj : StreamSimSym.ast),
+     osteps A0 j Aj ->
+     20 + nlen rem' <= nlen (StreamSimSym.x_in Aj) ->
+     exists (cj : circ) (hj : list N) (k' : snk) (t : list N),
+       StreamSimSym.x_win Aj = WCirc cj /\
+       WinCirc.CInv (snk_bytes k0) cj hj /\
+       stream_finish s' = (Done tt, k') /\ snk_bytes k' = snk_bytes k0 ++ hj ++ t).
+Proof. exact (@C15_finish_incomplete_keeps_up). Qed.
+Check C15_finish_incomplete_keeps_up :
+  forall (o : options) (k0 : snk) (bs : list N) (w : io),
+  StreamSimFull.is_byte_string bs ->
+  nlen bs < 4611686018427387904 ->
+  lzma_decompress big_fuel o {| i_src := cursor_of bs; i_snk := k0 |} = (Done tt, w) ->
+  o_allow_incomplete o = true ->
+  well_behaved k0 ->
+  forall (s' : stream) (rem' : list N) (r0 : run_state),
+  wtrace (stream_new o k0) bs s' rem' ->
+  st_state s' = Some (SData r0) ->
+  exists A0 : StreamSimSym.ast,
+    oneshot_start o k0 bs A0 /\
+    (forall (j : nat) (Aj : StreamSimSym.ast),
+     osteps A0 j Aj ->
+     20 + nlen rem' <= nlen (StreamSimSym.x_in Aj) ->
+     exists (cj : circ) (hj : list N) (k' : snk) (t : list N),
+       StreamSimSym.x_win Aj = WCirc cj /\
+       WinCirc.CInv (snk_bytes k0) cj hj /\
+       stream_finish s' = (Done tt, k') /\ snk_bytes k' = snk_bytes k0 ++ hj ++ t).
+Print Assumptions C15_finish_incomplete_keeps_up.
+
+(* REFUTED stronger reading: "everything written => finish(allow_incomplete) returns the whole output" is false (payload bytes still staged with the header are not decoded by finish); the property only promises a prefix   [proved as C15_finish_incomplete_may_lose_staged_bytes in Proofs/StreamPrefix2Examples.v] *)
+Theorem C15_finish_incomplete_may_lose_staged_bytes :
+  ~ c15_prefix_statement.
+Proof. exact (@C15_finish_incomplete_may_lose_staged_bytes). Qed.
+Check C15_finish_incomplete_may_lose_staged_bytes :
+  ~ c15_prefix_statement.
+Print Assumptions C15_finish_incomplete_may_lose_staged_bytes.
